@@ -58,4 +58,41 @@ theorem slice_is_segment {α : Type} (xs : List α) (a b : Option Int) :
     congr 1
     split <;> omega
 
+theorem filterMap_congr' {α β : Type} (f g : α → Option β) (l : List α) (h : ∀ x, x ∈ l → f x = g x) :
+    l.filterMap f = l.filterMap g := by
+  induction l with
+  | nil => rfl
+  | cons a r ih =>
+    simp only [List.filterMap_cons, h a (List.mem_cons_self ..)]
+    rw [ih (fun x hx => h x (List.mem_cons_of_mem _ hx))]
+
+theorem pick_reversed {α : Type} (xs : List α) :
+    pick xs ((List.range xs.length).map (fun k => xs.length - 1 - k)) = xs.reverse := by
+  have h2 := pick_consecutive xs.reverse 0 xs.length
+  simp only [List.drop_zero, Nat.zero_add] at h2
+  rw [List.take_of_length_le (by simp)] at h2
+  rw [← h2]
+  unfold pick
+  rw [List.filterMap_map, List.filterMap_map]
+  apply filterMap_congr'
+  intro k hk
+  have hk' : k < xs.length := List.mem_range.mp hk
+  simp only [Function.comp]
+  rw [List.getElem?_reverse hk']
+
+/-- **`xs[::-1]` is `xs` reversed** -/
+theorem slice_reverse {α : Type} (xs : List α) :
+    ∃ idx, sliceIndices xs.length none none (some (-1)) = .ok idx ∧ pick xs idx = xs.reverse := by
+  refine ⟨(List.range xs.length).map (fun k => xs.length - 1 - k), ?_, pick_reversed xs⟩
+  unfold sliceIndices
+  simp only [Option.getD_some, show ¬ ((-1 : Int) = 0) by decide, if_false, show ((-1 : Int) < 0) by decide, if_true,
+    show ¬ ((-1 : Int) > 0) by decide]
+  have hc : (if (xs.length : Int) - 1 > -1 then (((xs.length : Int) - 1 - -1 - 1) / - -1 + 1).toNat else 0) = xs.length := by
+    have e : (- -1 : Int) = 1 := by decide
+    rw [e, Int.ediv_one]
+    split <;> omega
+  have hf : (fun (k : Nat) => ((xs.length : Int) - 1 + -1 * (k : Int)).toNat) = (fun k => xs.length - 1 - k) := by
+    funext k; omega
+  rw [hc, hf]
+
 end Sq
